@@ -1,8 +1,10 @@
 #!/bin/bash
 # usage: seed_run.sh <worktree> <a|b> <PROP> [tier]   -- runs the registered check of PROP against the worktree with the seed applied
+# (location independent: uses the vcheck.py next to this script's parent, so it also works from a `vp run` snapshot)
 WT=$1; SUB=$2; PROP=$3; TIER=${4:-quick}
+HERE=$(cd "$(dirname "$0")/.." && pwd)
 cd "$WT" || exit 9
 git checkout -q -- . && git apply "SEED/$SUB/patch.diff" || exit 9
-cd /verif
-VHOST_REPO="$WT" VERIF_WORK=/verif/.work_seed VERIF_NO_EVIDENCE=1 VERIF_JOBS=${JOBS:-8} ./vcheck.py "$PROP" --tier "$TIER" --no-replay 2>&1 | grep -E "violation|inconclusive|VIOLATION|KNOWN|tier=|failed:" | cut -c1-300
+cd "$HERE"
+VHOST_REPO="$WT" VERIF_WORK="$HERE/.work_seed_$(basename "$WT")" VERIF_NO_EVIDENCE=1 VERIF_JOBS=${JOBS:-8} ./vcheck.py "$PROP" --tier "$TIER" --no-replay 2>&1 | grep -E "violation|inconclusive|VIOLATION|KNOWN|tier=|failed:" | cut -c1-300
 cd "$WT" && git checkout -q -- .
